@@ -448,7 +448,7 @@ func step(st *hstate, f []string) []string {
 		if err != nil {
 			return e(err)
 		}
-		return []string{fmt.Sprintf("ok %d %s%s", sz, versOf(sv, ms), fmtMsgs(ms))}
+		return []string{fmt.Sprintf("ok %d %s%s%s", sz, versOf(sv, ms), rewrittenVer(sv, segVers(st.dir), ms), fmtMsgs(ms))}
 	case "delm":
 		sv := segVers(st.dir)
 		ms, sz, err := klevdb.DeleteMulti(ctx, l, parseOffsets(f[1]), noBackoff)
@@ -644,8 +644,9 @@ func step(st *hstate, f []string) []string {
 // segVers reads, independently of klevdb, the record format of every segment file:
 // a V2 log starts with the magic FF 'k' 'l' 'e' 'v' 's'; anything else (incl. empty) is V1.
 type segVer struct {
-	base int64
-	v    byte
+	base  int64
+	v     byte
+	empty bool // no record in the log file
 }
 
 func segVers(dir string) []segVer {
@@ -661,14 +662,18 @@ func segVers(dir string) []segVer {
 			continue
 		}
 		v := byte('1')
+		var size int64
 		if fh, err := os.Open(filepath.Join(dir, name)); err == nil {
 			var h [6]byte
 			if n, _ := io.ReadFull(fh, h[:]); n == 6 && string(h[:]) == "\xffklevs" {
 				v = '2'
 			}
+			if fi, err := fh.Stat(); err == nil {
+				size = fi.Size()
+			}
 			fh.Close()
 		}
-		res = append(res, segVer{base, v})
+		res = append(res, segVer{base, v, size == 0 || (v == '2' && size <= 8)})
 	}
 	sort.Slice(res, func(i, j int) bool { return res[i].base < res[j].base })
 	return res
@@ -690,6 +695,38 @@ func versOf(sv []segVer, ms []klevdb.Message) string {
 		b = append(b, v)
 	}
 	return string(b)
+}
+
+// rewrittenVer: ">v" - the format (read from the files, independently of klevdb) of the segment that holds the survivors
+// of the segment a Delete rewrote (the one with the lowest deleted offset), ">-" when nothing of it is left
+func rewrittenVer(before, after []segVer, ms []klevdb.Message) string {
+	if len(ms) == 0 {
+		return ""
+	}
+	lo := ms[0].Offset
+	for _, m := range ms {
+		if m.Offset < lo {
+			lo = m.Offset
+		}
+	}
+	src, upper := int64(-1), int64(1)<<62
+	for i, s := range before {
+		if s.base <= lo {
+			src, upper = s.base, int64(1)<<62
+			if i+1 < len(before) {
+				upper = before[i+1].base
+			}
+		}
+	}
+	if src < 0 {
+		return ">?"
+	}
+	for _, s := range after {
+		if s.base >= src && s.base < upper && !s.empty {
+			return ">" + string(s.v)
+		}
+	}
+	return ">-"
 }
 
 func doCons(l klevdb.Log, off, max int64) string {
